@@ -21,6 +21,7 @@ var catalogue = map[string]catEntry{
 	// ---- breaking ----
 	"remove-struct":                 {true, "audit.go:267 'Struct removed' (checkStructLike :278-285 'missing struct')"},
 	"rename-struct":                 {true, "audit.go:267 'Struct removed': the old name is gone (:283); DESIGN: renaming a struct is a removal"},
+	"change-kind":                   {true, "audit.go:267 'Struct removed': structs, exceptions and unions are audited as three separate lists (auditFrugal: checkStructLike x3), so a definition that keeps its name but changes kind is missing from its old list ('missing struct' :283); on the wire a union is all-optional / an exception is raised, not returned"},
 	"remove-field":                  {true, "audit.go:270 'Non-optional field removed' (checkFields :392-394); only default/required fields of structs and exceptions"},
 	"retype-field":                  {true, "audit.go:269 'Field type changed' (checkFields :377, checkType :421-446, recursion :444-445)"},
 	"flip-requiredness":             {true, "audit.go:268 'Presence modifier changed from optional/default to required (or vice versa)' (:379-384)"},
@@ -617,6 +618,51 @@ func (en *enumerator) structLevel(f *idl.File, di int, s *idl.Struct, declPos st
 		})
 	}
 
+	// same name, other kind (struct <-> union, struct <-> exception)
+	var kinds []string
+	switch s.Kind {
+	case idl.KindStruct:
+		if len(s.Fields) > 0 {
+			kinds = append(kinds, idl.KindUnion)
+		}
+		if !referenced(p, f, sn, false) {
+			kinds = append(kinds, idl.KindException)
+		}
+	case idl.KindUnion:
+		kinds = append(kinds, idl.KindStruct)
+	case idl.KindException:
+		if !referenced(p, f, sn, false) {
+			kinds = append(kinds, idl.KindStruct)
+		}
+	}
+	for _, to := range kinds {
+		to, from := to, s.Kind
+		kind := from + ">" + to + "/decl-" + declPos
+		if referenced(p, f, sn, false) {
+			kind += "/referenced"
+		}
+		en.add("change-kind", fb, from+" "+sn+" -> "+to, kind, []string{skey}, func(c *ectx) bool {
+			cf := fileOf(c.p, fb)
+			cs := structOf(cf, sn)
+			if cs == nil || cs.Kind != from {
+				return false
+			}
+			if (to == idl.KindException || from == idl.KindException) && referenced(c.p, cf, sn, false) {
+				return false // exceptions are not field types, thrown types are exceptions
+			}
+			if to == idl.KindUnion {
+				if len(cs.Fields) == 0 {
+					return false
+				}
+				for _, x := range cs.Fields {
+					x.Req, x.Default = idl.ReqDefault, nil // union members carry no requiredness
+				}
+			}
+			cs.Kind = to
+			return true
+		})
+	}
+
 	baseMax := maxFieldID(s.Fields)
 	addField := func(op, where string, req string, mk func(c *ectx, cs *idl.Struct) *idl.Field) {
 		en.add(op, fb, s.Kind+" "+sn+" +field", s.Kind+"/"+where, []string{skey + "/+f:" + op + where}, func(c *ectx) bool {
@@ -956,6 +1002,66 @@ func (en *enumerator) constLevel(f *idl.File, k *idl.Const) {
 		})
 	}
 	widen := map[string]string{"byte": "i16", "i16": "i32", "i32": "i64"}
+	// an element type of a container constant (second level or deeper):
+	// widened, or narrowed when every number of the value still fits
+	narrow := map[string]string{"i64": "i32", "i32": "i16"}
+	limit := map[string]int64{"i32": 1 << 31, "i16": 1 << 15}
+	var maxAbs int64
+	var scan func(v interface{})
+	scan = func(v interface{}) {
+		switch x := v.(type) {
+		case int64:
+			if x < 0 {
+				x = -x
+			}
+			if x > maxAbs {
+				maxAbs = x
+			}
+		case []interface{}:
+			for _, e := range x {
+				scan(e)
+			}
+		case []idl.KV:
+			for _, e := range x {
+				scan(e.Key)
+				scan(e.Value)
+			}
+		}
+	}
+	scan(k.Value)
+	for _, nd := range typeNodes(k.Type) {
+		nd := nd
+		if nd.path == "" {
+			continue
+		}
+		var tos []string
+		if to, ok := widen[nd.t.Name]; ok {
+			tos = append(tos, to)
+		}
+		if to, ok := narrow[nd.t.Name]; ok && maxAbs < limit[to] {
+			tos = append(tos, to)
+		}
+		from := nd.t.Name
+		for _, to := range tos {
+			to := to
+			dir := "widen"
+			if narrow[from] == to {
+				dir = "narrow"
+			}
+			en.add("change-const-type", fb, fmt.Sprintf("const %s type@%q: %s -> %s", name, nd.path, from, to), "const/"+dir+"/"+pathKind(nd.path), key, func(c *ectx) bool {
+				ck := constOf(fileOf(c.p, fb), name)
+				if ck == nil {
+					return false
+				}
+				n := navigate(ck.Type, nd.path)
+				if n == nil || n.Name != from {
+					return false
+				}
+				n.Name = to
+				return true
+			}).Quals = []string{"nested"}
+		}
+	}
 	if to, ok := widen[k.Type.Name]; ok {
 		en.add("change-const-type", fb, "const "+name+": "+k.Type.Name+" -> "+to, "const/widen", key, func(c *ectx) bool {
 			ck := constOf(fileOf(c.p, fb), name)
